@@ -28,6 +28,8 @@ type nbEv struct {
 	Cls    string   `json:"cls"`
 	Ents   [][]int  `json:"ents"`
 	Found  bool     `json:"found"`
+	PCheck bool     `json:"pcheck"` // the entry is a pipeline that `wtf pipeline <marker>` must list
+	PFound bool     `json:"pfound"`
 	Merged [][]int  `json:"merged"`
 	Main   [][]int  `json:"main"`
 	Args   []string `json:"args,omitempty"`
@@ -237,6 +239,18 @@ func (d *nbDriver) save(r saveReq) {
 		if mdb, err := database.LoadDatabaseWithPersonal(d.mainF, d.personal()); err == nil {
 			ev.Merged = d.pairs(mdb.Commands)
 		}
+		// a saved pipeline is also found by the pipeline search (the hint save-pipeline itself prints)
+		if exp.Pipeline && len(exp.Platform) == 0 && exp.Command != "" && validUTF8Printable(exp.Command) && !strings.ContainsAny(exp.Command, "\n\r") &&
+			exp.Command == strings.TrimSpace(exp.Command) {
+			ev.PCheck = true
+			po, _, _ := runWtf([]string{"pipeline", "--database", d.mainF, "--limit", "50", "--", r.marker})
+			want := strings.ReplaceAll(exp.Command, "|", " │ ")
+			for _, m := range reListItem.FindAllStringSubmatch(reANSI.ReplaceAllString(po, ""), -1) {
+				if m[2] == want {
+					ev.PFound = true
+				}
+			}
+		}
 	}
 	d.w.emit(ev)
 }
@@ -318,7 +332,21 @@ func notebookTours(args []string) int {
 	return 0
 }
 
-var hostileArgs = []string{"plain words", "- leading dash", "-rf", "--", "key: value", "# not a comment", "'single' \"double\"", "{{.Names}}\t{{.Status}}", "null", "true", "~",
+// swapCase flips the case of the ASCII letters
+func swapCase(s string) string {
+	b := []byte(s)
+	for i, c := range b {
+		switch {
+		case c >= 'a' && c <= 'z':
+			b[i] = c - 32
+		case c >= 'A' && c <= 'Z':
+			b[i] = c + 32
+		}
+	}
+	return string(b)
+}
+
+var hostileArgs = []string{"ls -r", "ls -R", "grep -i todo", "plain words", "- leading dash", "-rf", "--", "key: value", "# not a comment", "'single' \"double\"", "{{.Names}}\t{{.Status}}", "null", "true", "~",
 	"123", "1e3", "0x1F", "multi\nline\ntext", "tab\there", "trailing space ", " leading space", "", "ünï cödé 日本語 🚀", "bad\xffutf8", "\x01control\x1b[31m", "a,b", "\"quoted,comma\",x",
 	"[list]", "{map: 1}", "|", ">", "&anchor", "*alias", "!tag", "%directive", "@at", "`backtick`", "yes", "No", "2001-01-01", " line sep", "very " + strings.Repeat("long ", 200)}
 
@@ -350,6 +378,11 @@ func notebookRandom(args []string) int {
 			cmd := pick()
 			if len(used) > 0 && r.Intn(3) == 0 {
 				cmd = used[r.Intn(len(used))] // save an existing command string again
+				if r.Intn(3) == 0 {           // ... or one that differs from it only in letter case: a different command
+					if v := swapCase(cmd); v != cmd {
+						cmd = v
+					}
+				}
 			}
 			used = append(used, cmd)
 			req := saveReq{sub: "save", command: cmd, desc: pick(), dashdash: r.Intn(5) != 0, marker: fmt.Sprintf("zqmark%d", d.n), pipeline: r.Intn(3) == 0}
